@@ -756,6 +756,53 @@ def mu_stable(old_cand, prefs, mu_pos, mu_inv):
                                 or prefs[old_cand[s][k]][s] > prefs[old_cand[s][k]][mu_inv[old_cand[s][k]]]))))
 
 
+@contract("spowtd.classify:find_stable_matching#terminates",
+          args={"storm_candidates": "dict[int,list[int]]", "jump_preferences": "dict[int,dict[int,real]]"},
+          returns="dict[int,int]")
+def _find_stable_matching_terminates(storm_candidates, jump_preferences, result):
+    """C01 ("classification finishes"): the deferred-acceptance loop terminates.  Measure: the number of candidates
+    left over all storms (ghost: the list lengths in the iteration order of the dictionary as it was handed in, and
+    their partial sums); every iteration pops exactly one candidate (lemma point_decrement_sum) and the measure is
+    never negative (lemma prefix_sums_monotone)."""
+    requires(forall_int(lambda s, k: implies(
+        s in storm_candidates and 0 <= k and k < len(storm_candidates[s]),
+        storm_candidates[s][k] in jump_preferences and s in jump_preferences[storm_candidates[s][k]])))
+    modifies("storm_candidates")
+    ghost(before="matches = dict()", let="g_keys", do=lambda: list(storm_candidates.keys()))
+    ghost(before="matches = dict()", let="g_cnt", do=lambda: [len(c) for c in list(storm_candidates.values())])
+    ghost(before="matches = dict()", let="g_ps", do=lambda: prefix_sums(g_cnt))
+    ghost(before="matches = dict()", do=lambda: prefix_sums_monotone(g_cnt, g_ps))
+    ghost(before="matches = dict()", let="g_m", do=lambda: 0 if len(g_cnt) == 0 else g_ps[len(g_cnt) - 1])
+    ghost(after="jump = storm_candidates[storm].pop()", let="g_kp", do=lambda: key_position(old(storm_candidates), storm))
+    ghost(after="jump = storm_candidates[storm].pop()", let="g_cnt2",
+          do=lambda: [g_cnt[i] - (1 if i == g_kp else 0) for i in range(len(g_cnt))])
+    ghost(after="jump = storm_candidates[storm].pop()", let="g_ps2", do=lambda: prefix_sums(g_cnt2))
+    ghost(after="jump = storm_candidates[storm].pop()", do=lambda: point_decrement_sum(g_cnt, g_ps, g_cnt2, g_ps2, g_kp))
+    ghost(after="jump = storm_candidates[storm].pop()", do=lambda: prefix_sums_monotone(g_cnt2, g_ps2))
+    ghost(after="jump = storm_candidates[storm].pop()", let="g_cnt", do=lambda: g_cnt2)
+    ghost(after="jump = storm_candidates[storm].pop()", let="g_ps", do=lambda: g_ps2)
+    ghost(after="jump = storm_candidates[storm].pop()", let="g_m", do=lambda: g_m - 1)
+    loop(0, types={"matches": "dict[int,int]", "g_cnt": "array[int]", "g_ps": "array[int]", "g_m": "int"},
+         decreases=lambda: g_m, inv=lambda:
+         forall_int(lambda s: (s in storm_candidates) == (s in old(storm_candidates)))
+         and forall_int(lambda s: implies(s in matchable_storms, s in storm_candidates and len(storm_candidates[s]) > 0))
+         and forall_int(lambda s, k: implies(
+             s in storm_candidates,
+             len(storm_candidates[s]) <= len(old(storm_candidates)[s])
+             and implies(0 <= k and k < len(storm_candidates[s]),
+                         storm_candidates[s][k] == old(storm_candidates)[s][k])))
+         # a matched storm is not matchable and is matched to the last rise it proposed to (needed by the assert)
+         and forall_int(lambda j: implies(
+             j in matches,
+             matches[j] in storm_candidates and matches[j] not in matchable_storms
+             and len(storm_candidates[matches[j]]) < len(old(storm_candidates)[matches[j]])
+             and old(storm_candidates)[matches[j]][len(storm_candidates[matches[j]])] == j))
+         and len(g_cnt) == len(g_keys) and is_prefix_sums(g_cnt, g_ps)
+         and forall(0, len(g_keys), lambda i: g_cnt[i] == len(storm_candidates[g_keys[i]]))
+         and forall(0, len(g_cnt), lambda i: g_ps[i] >= 0)
+         and g_m == (0 if len(g_cnt) == 0 else g_ps[len(g_cnt) - 1]))
+
+
 @contract("spowtd.classify:find_stable_matching#optimal",
           args={"storm_candidates": "dict[int,list[int]]", "jump_preferences": "dict[int,dict[int,real]]"},
           returns="dict[int,int]", logical={"mu_pos": "dict[int,int]", "mu_inv": "dict[int,int]"})
